@@ -25,6 +25,9 @@ Proofs/NameWireP.vos Proofs/NameWireP.vok Proofs/NameWireP.required_vos: Proofs/
 Proofs/NameWireSP.vo Proofs/NameWireSP.glob Proofs/NameWireSP.v.beautified Proofs/NameWireSP.required_vo: Proofs/NameWireSP.v Base/ListX.vo Spec/NameWireS.vo
 Proofs/NameWireSP.vio: Proofs/NameWireSP.v Base/ListX.vio Spec/NameWireS.vio
 Proofs/NameWireSP.vos Proofs/NameWireSP.vok Proofs/NameWireSP.required_vos: Proofs/NameWireSP.v Base/ListX.vos Spec/NameWireS.vos
+Proofs/RrlKeyP.vo Proofs/RrlKeyP.glob Proofs/RrlKeyP.v.beautified Proofs/RrlKeyP.required_vo: Proofs/RrlKeyP.v Base/Res.vo Base/Octets.vo Model/Rrl.vo Spec/RrlBucketS.vo Spec/RrlStreamS.vo Proofs/RrlP.vo
+Proofs/RrlKeyP.vio: Proofs/RrlKeyP.v Base/Res.vio Base/Octets.vio Model/Rrl.vio Spec/RrlBucketS.vio Spec/RrlStreamS.vio Proofs/RrlP.vio
+Proofs/RrlKeyP.vos Proofs/RrlKeyP.vok Proofs/RrlKeyP.required_vos: Proofs/RrlKeyP.v Base/Res.vos Base/Octets.vos Model/Rrl.vos Spec/RrlBucketS.vos Spec/RrlStreamS.vos Proofs/RrlP.vos
 Proofs/RrlP.vo Proofs/RrlP.glob Proofs/RrlP.v.beautified Proofs/RrlP.required_vo: Proofs/RrlP.v Base/Res.vo Base/Octets.vo Model/Rrl.vo Spec/RrlBucketS.vo
 Proofs/RrlP.vio: Proofs/RrlP.v Base/Res.vio Base/Octets.vio Model/Rrl.vio Spec/RrlBucketS.vio
 Proofs/RrlP.vos Proofs/RrlP.vok Proofs/RrlP.required_vos: Proofs/RrlP.v Base/Res.vos Base/Octets.vos Model/Rrl.vos Spec/RrlBucketS.vos
@@ -34,6 +37,9 @@ Props/C14.vos Props/C14.vok Props/C14.required_vos: Props/C14.v Base/ListX.vos M
 Props/C26.vo Props/C26.glob Props/C26.v.beautified Props/C26.required_vo: Props/C26.v Base/Res.vo Base/Octets.vo Model/Rrl.vo Spec/RrlBucketS.vo Proofs/RrlP.vo
 Props/C26.vio: Props/C26.v Base/Res.vio Base/Octets.vio Model/Rrl.vio Spec/RrlBucketS.vio Proofs/RrlP.vio
 Props/C26.vos Props/C26.vok Props/C26.required_vos: Props/C26.v Base/Res.vos Base/Octets.vos Model/Rrl.vos Spec/RrlBucketS.vos Proofs/RrlP.vos
+Props/C27.vo Props/C27.glob Props/C27.v.beautified Props/C27.required_vo: Props/C27.v Base/Res.vo Base/Octets.vo Model/Rrl.vo Spec/RrlBucketS.vo Spec/RrlStreamS.vo Proofs/RrlP.vo Proofs/RrlKeyP.vo
+Props/C27.vio: Props/C27.v Base/Res.vio Base/Octets.vio Model/Rrl.vio Spec/RrlBucketS.vio Spec/RrlStreamS.vio Proofs/RrlP.vio Proofs/RrlKeyP.vio
+Props/C27.vos Props/C27.vok Props/C27.required_vos: Props/C27.v Base/Res.vos Base/Octets.vos Model/Rrl.vos Spec/RrlBucketS.vos Spec/RrlStreamS.vos Proofs/RrlP.vos Proofs/RrlKeyP.vos
 Spec/NameRepr.vo Spec/NameRepr.glob Spec/NameRepr.v.beautified Spec/NameRepr.required_vo: Spec/NameRepr.v Model/NameWire.vo Spec/NameWireS.vo
 Spec/NameRepr.vio: Spec/NameRepr.v Model/NameWire.vio Spec/NameWireS.vio
 Spec/NameRepr.vos Spec/NameRepr.vok Spec/NameRepr.required_vos: Spec/NameRepr.v Model/NameWire.vos Spec/NameWireS.vos
@@ -43,3 +49,6 @@ Spec/NameWireS.vos Spec/NameWireS.vok Spec/NameWireS.required_vos: Spec/NameWire
 Spec/RrlBucketS.vo Spec/RrlBucketS.glob Spec/RrlBucketS.v.beautified Spec/RrlBucketS.required_vo: Spec/RrlBucketS.v 
 Spec/RrlBucketS.vio: Spec/RrlBucketS.v 
 Spec/RrlBucketS.vos Spec/RrlBucketS.vok Spec/RrlBucketS.required_vos: Spec/RrlBucketS.v 
+Spec/RrlStreamS.vo Spec/RrlStreamS.glob Spec/RrlStreamS.v.beautified Spec/RrlStreamS.required_vo: Spec/RrlStreamS.v 
+Spec/RrlStreamS.vio: Spec/RrlStreamS.v 
+Spec/RrlStreamS.vos Spec/RrlStreamS.vok Spec/RrlStreamS.required_vos: Spec/RrlStreamS.v 
